@@ -579,6 +579,7 @@ func hasCmp(pa paths.Path, l, op, r string, val bool) bool {
 }
 
 func (c *hmapClassifier) condEvent(cond ast.Expr, val bool) *paths.Event {
+	origVal := val
 	// this.endEntry(front) == e reads as header.link_next == e once the mode fixes `front`
 	if be, ok := ast.Unparen(cond).(*ast.BinaryExpr); ok && c.resolveCall != nil {
 		x, y := be.X, be.Y
@@ -626,7 +627,146 @@ func (c *hmapClassifier) condEvent(cond ast.Expr, val bool) *paths.Event {
 			s = "found"
 		}
 	}
+	// e == nil with e := *slot, slot := finder(table, key): the finder (a helper that walks the chain
+	// through the address of each link until it holds key or is the terminating nil) makes the nil
+	// test the membership test
+	if be, ok := ast.Unparen(cond).(*ast.BinaryExpr); ok && (be.Op == token.EQL || be.Op == token.NEQ) && s != "found" {
+		for _, pr := range [][2]ast.Expr{{be.X, be.Y}, {be.Y, be.X}} {
+			if nid, ok := ast.Unparen(pr[1]).(*ast.Ident); !ok || nid.Name != "nil" {
+				continue
+			}
+			if c.derefOfFoundSlot(pr[0]) {
+				// raw outcome of the cond; found is "not nil"
+				rawEq := origVal
+				if be.Op == token.NEQ {
+					rawEq = !origVal
+				}
+				s, val = "found", !rawEq
+			}
+		}
+	}
 	return &paths.Event{Kind: kind, Arg: fmt.Sprintf("%s=%v", s, val), Pos: cond.Pos()}
+}
+
+// derefOfFoundSlot: e is `*slot` (directly, or through one local) where slot was returned by a slot
+// finder called with the method's key.
+func (c *hmapClassifier) derefOfFoundSlot(e ast.Expr) bool {
+	e = ast.Unparen(e)
+	if id, ok := e.(*ast.Ident); ok {
+		d := c.localDef(id)
+		if d == nil {
+			return false
+		}
+		e = ast.Unparen(d)
+	}
+	st, ok := e.(*ast.StarExpr)
+	if !ok {
+		return false
+	}
+	var call *ast.CallExpr
+	switch x := ast.Unparen(st.X).(type) {
+	case *ast.Ident:
+		d := c.localDef(x)
+		if d == nil {
+			return false
+		}
+		call, _ = ast.Unparen(d).(*ast.CallExpr)
+	case *ast.CallExpr:
+		call = x
+	}
+	if call == nil || c.p == nil {
+		return false
+	}
+	fn := calleeFunc(c.info, call)
+	if fn == nil {
+		return false
+	}
+	hf := c.p.FuncOf(fn)
+	if hf == nil || hf.Decl.Body == nil || !isSlotFinder(hf) {
+		return false
+	}
+	for _, a := range call.Args {
+		if c.isParam(a) {
+			return true
+		}
+	}
+	return false
+}
+
+// isSlotFinder: the function returns **Entry, and every loop in it goes on while the link is non-nil
+// and its key differs from a parameter, advancing to the address of the next link.
+func isSlotFinder(hf *core.FuncInfo) bool {
+	sig := hf.Obj.Type().(*types.Signature)
+	if sig.Results().Len() != 1 {
+		return false
+	}
+	pt, ok := sig.Results().At(0).Type().(*types.Pointer)
+	if !ok {
+		return false
+	}
+	if _, ok := pt.Elem().(*types.Pointer); !ok {
+		return false
+	}
+	info := hf.Pkg.TypesInfo
+	params := map[types.Object]bool{}
+	for _, f := range hf.Decl.Type.Params.List {
+		for _, n := range f.Names {
+			params[info.Defs[n]] = true
+		}
+	}
+	loops, good := 0, 0
+	ast.Inspect(hf.Decl.Body, func(n ast.Node) bool {
+		fs, ok := n.(*ast.ForStmt)
+		if !ok {
+			return true
+		}
+		loops++
+		if fs.Cond == nil {
+			return true
+		}
+		nilTest, keyTest := false, false
+		for _, cj := range flattenAndExpr(fs.Cond) {
+			be, ok := ast.Unparen(cj).(*ast.BinaryExpr)
+			if !ok {
+				continue
+			}
+			if be.Op == token.NEQ {
+				if id, ok := ast.Unparen(be.Y).(*ast.Ident); ok && id.Name == "nil" {
+					if _, isStar := ast.Unparen(be.X).(*ast.StarExpr); isStar {
+						nilTest = true
+					}
+				}
+				if sel, ok := ast.Unparen(be.X).(*ast.SelectorExpr); ok && (sel.Sel.Name == "key" || sel.Sel.Name == "Key") {
+					if id, ok := ast.Unparen(be.Y).(*ast.Ident); ok && params[info.ObjectOf(id)] {
+						keyTest = true
+					}
+				}
+			}
+		}
+		adv := false
+		ast.Inspect(fs.Body, func(m ast.Node) bool {
+			if as, ok := m.(*ast.AssignStmt); ok && len(as.Lhs) == 1 && len(as.Rhs) == 1 {
+				if u, ok := ast.Unparen(as.Rhs[0]).(*ast.UnaryExpr); ok && u.Op == token.AND {
+					if sel, ok := ast.Unparen(u.X).(*ast.SelectorExpr); ok && isNextField(sel.Sel.Name) {
+						adv = true
+					}
+				}
+			}
+			return true
+		})
+		if nilTest && keyTest && adv {
+			good++
+		}
+		return true
+	})
+	return loops > 0 && loops == good
+}
+
+func flattenAndExpr(e ast.Expr) []ast.Expr {
+	if be, ok := ast.Unparen(e).(*ast.BinaryExpr); ok && be.Op == token.LAND {
+		return append(flattenAndExpr(be.X), flattenAndExpr(be.Y)...)
+	}
+	return []ast.Expr{e}
 }
 
 func (c *hmapClassifier) isParam(e ast.Expr) bool {
